@@ -77,7 +77,7 @@ def obligations(M, tier, work, repo, log, only):
     def decl(names_):
         return '\n'.join(f'(declare-const {n} (_ BitVec 128))' for n in names_)
 
-    def solve(name, tr, decls, prop_term, functions, bound, validate, cases=None, ob_tier='quick'):
+    def solve(name, tr, decls, prop_term, functions, bound, validate, cases=None, ob_tier='quick', exhaustive=True):
         """assert not( all MIR assert obligations hold AND prop ) ; both solvers must say unsat (per case, if the input space is
         split into cases whose disjunction is checked to be exhaustive); then validate the translation natively"""
         obl = ' '.join(f'(=> {pc} {c})' for pc, c, _ in tr.obligations) or 'true'
@@ -88,7 +88,7 @@ def obligations(M, tier, work, repo, log, only):
         wall = 0.0
         nq = 0
         stats = {'mir_assert_obligations': len(tr.obligations), 'definitions': len(tr.defs), 'mul64_sites': len(set(tr.mul_sites)), 'cases': {}}
-        if cases:
+        if cases and exhaustive:
             # the cases must cover the whole input space
             q = head + '(assert (not (or ' + ' '.join(c for _, c in cases) + ')))\n(check-sat)\n'
             r = M.run_solver(['/usr/bin/z3', '-in', '-T:120'], q, 150)
@@ -98,20 +98,33 @@ def obligations(M, tier, work, repo, log, only):
             if r[0] != 'unsat':
                 verdicts.append(('exhaustiveness', r[0], r[0]))
         qfile = None
-        for cname, cterm in cases_:
+        def one_case(case):
+            cname, cterm = case
             q = head + f'(assert {cterm})\n(assert (not (and {obl} {prop_term})))\n(check-sat)\n'
-            qfile = os.path.join(base, f'{name}-{cname}.smt2')
-            open(qfile, 'w').write(q)
-            r1 = M.run_solver(['/usr/bin/z3', '-in', f'-T:{to}'], q, to + 30)
-            if r1[0] in ('timeout', 'unknown', 'error'):
-                r1b = M.run_solver(['z3-new', '-in', f'-T:{to}'], q, to + 30)
-                r1 = (r1b[0], r1[1] + r1b[1], 'z3-new: ' + r1b[2][:100])
-            r2 = M.run_solver(['cvc5', '--lang', 'smt2', f'--tlimit={to * 1000}'], q, to + 30)
-            nq += 2
-            wall += r1[1] + r2[1]
-            stats['cases'][cname] = {'z3': [r1[0], round(r1[1], 1)], 'cvc5': [r2[0], round(r2[1], 1)]}
-            verdicts.append((cname, r1[0], r2[0]))
+            qf = os.path.join(base, f'{name}-{cname}.smt2')
+            open(qf, 'w').write(q)
+
+            def z3_side():
+                r1 = M.run_solver(['/usr/bin/z3', '-in', f'-T:{to}'], q, to + 30)
+                if r1[0] in ('timeout', 'unknown', 'error'):
+                    r1b = M.run_solver(['z3-new', '-in', f'-T:{to}'], q, to + 30)
+                    r1 = (r1b[0], r1[1] + r1b[1], 'z3-new: ' + r1b[2][:100])
+                return r1
+
+            with concurrent.futures.ThreadPoolExecutor(2) as ex2:
+                f1 = ex2.submit(z3_side)
+                f2 = ex2.submit(M.run_solver, ['cvc5', '--lang', 'smt2', f'--tlimit={to * 1000}'], q, to + 30)
+                r1, r2 = f1.result(), f2.result()
             log(f"  [engine M] {name}[{cname}]: z3={r1[0]} ({r1[1]:.1f}s) cvc5={r2[0]} ({r2[1]:.1f}s)")
+            return cname, r1, r2, qf
+
+        import concurrent.futures
+        with concurrent.futures.ThreadPoolExecutor(max(1, min(len(cases_), int(os.environ.get('VERIF_JOBS', '8') or 8) // 2))) as ex:
+            for cname, r1, r2, qfile in ex.map(one_case, cases_):
+                nq += 2
+                wall += r1[1] + r2[1]
+                stats['cases'][cname] = {'z3': [r1[0], round(r1[1], 1)], 'cvc5': [r2[0], round(r2[1], 1)]}
+                verdicts.append((cname, r1[0], r2[0]))
         res = dict(base_result, obligation=name, tier=ob_tier, functions=functions, bound=bound, queries=nq + len(tr.obligations),
                    solver_wall_s=round(wall, 1), stats=dict(stats, query_file=qfile))
         if all(a == 'unsat' and b == 'unsat' for _, a, b in verdicts):
@@ -303,12 +316,14 @@ def obligations(M, tier, work, repo, log, only):
             cases = []
             for sa, ta in (('ap', '(not na)'), ('an', 'na')):
                 for sb, tb in (('bp', '(not nb)'), ('bn', 'nb')):
-                    for hz, th in (('h00', '(and (= mah (_ bv0 128)) (= mbh (_ bv0 128)))'), ('h0x', '(and (= mah (_ bv0 128)) (not (= mbh (_ bv0 128))))'),
-                                   ('hx0', '(and (not (= mah (_ bv0 128))) (= mbh (_ bv0 128)))'), ('hxx', '(and (not (= mah (_ bv0 128))) (not (= mbh (_ bv0 128))))')):
+                    # the two mixed classes (exactly one magnitude >= 2^128: h0x, hx0) were measured at 2900-5200 s per case
+                    # with z3 and no cvc5 answer in 3600 s: they are OUTSIDE this claim (stated in the bound)
+                    for hz, th in (('h00', '(and (= mah (_ bv0 128)) (= mbh (_ bv0 128)))'),
+                                   ('hxx', '(and (not (= mah (_ bv0 128))) (not (= mbh (_ bv0 128))))')):
                         cases.append((f'{sa}{sb}{hz}', f'(and {ta} {tb} {th})'))
             results.append(solve('m_i256_checked_mul_exact', tr, decl(['al', 'ah', 'bl', 'bh']), prop,
                                  ['arrow_buffer::i256::checked_mul', 'i256::wrapping_abs', 'i256::wrapping_sub', 'i256::is_eq', 'i256::is_negative', 'i256::from_parts', 'arrow_buffer::bigint::mulx'],
-                                 'full width: every pair of i256 operands (16 sign x high-limb cases, checked exhaustive); Some(r) iff the exact signed product fits 256 bits, and then r is that product', validate, cases=cases, ob_tier='thorough'))
+                                 'every pair of i256 operands whose magnitudes are BOTH below 2^128 or BOTH at least 2^128, all four sign combinations (8 of the 16 sign x high-limb classes; the mixed classes are outside the claim: no verdict within an hour per class); Some(r) iff the exact signed product fits 256 bits, and then r is that product', validate, cases=cases, ob_tier='thorough', exhaustive=False))
         except M.Unsupported as e:
             results.append(dict(base_result, obligation='m_i256_checked_mul_exact', verdict='inconclusive', reason=f'translator: {e}', functions=['i256::checked_mul'], bound='', queries=0))
 
